@@ -74,6 +74,13 @@ def gen(rng):
         args.insert(rng.randint(0, len(args)), rng.choice(L['vols']) + rng.choice(['', '/']))
     elif r < 0.22:
         args.insert(rng.randint(0, len(args)), rng.choice(['missing', home + '/w/nope', 'sib/nope', '']))
+    if rng.random() < 0.03 and not any(s_[1] in (cwd.rstrip('/') + '/~', home + '/n0') for s_ in steps):
+        # a directory literally called '~' in the current directory (the classic accident of a quoted "~/build" in a script) and
+        # an operand that begins with a tilde: an operand is a path, not a shell word - HOME holds an entry of the same name
+        steps.append(['d', cwd.rstrip('/') + '/~', 0o755])
+        steps.append(['f', cwd.rstrip('/') + '/~/n0', 'inside the directory called tilde', 0o644, 1_400_000_001])
+        steps.append(['f', home + '/n0', 'in HOME', 0o644, 1_400_000_002])
+        args.insert(rng.randint(0, len(args)), rng.choice(['~/n0', '~/n0', '~/n0/', '~']))
     if not args:
         args = ['.']
     opts = []
